@@ -18,7 +18,9 @@
 (***************************************************************************)
 EXTENDS Query, Json
 
-CONSTANTS Part, NMax, ANodes, ALevels, Deep2Atoms
+CONSTANTS Part, NMax, ANodes, ALevels, Deep2Atoms,
+          EmitEvery, Salt        \* emission sampling: one state out of EmitEvery is emitted (all are checked);
+                                 \* which ones is a deterministic function of the state and of Salt (from VERIF_SEED)
 
 cx == 120  cX == 88  cy == 121  ca == 97  cA == 65  cb == 98
 Tok(op, f, ci, arg) == [op |-> op, f |-> f, ci |-> ci, arg |-> arg]
@@ -104,7 +106,10 @@ Grow(T) == T \cup {Not(t) : t \in T} \cup {And(t, u) : t, u \in T} \cup {Or(t, u
 Small  == IF Deep2Atoms = 3 THEN {Atom("eq", TRUE, X), Atom("lt", FALSE, IV(2)), Atom("boom", FALSE, IV(0))}
           ELSE {Atom("eq", FALSE, X), Atom("eq", TRUE, BX), Atom("lt", FALSE, IV(2)), Atom("contains", FALSE, X),
                 Atom("boom", FALSE, IV(0)), Atom("startswith", TRUE, X)}
-Terms  == Grow(Atoms) \cup Grow(Grow(Small))
+Terms  == Grow(Atoms) \cup Grow(Grow(Small))        \* enumerated in two steps: a base term, then what is built on it
+Bases  == Atoms \cup Grow(Small)
+Pairs(b, U) == {And(b, u) : u \in U} \cup {Or(b, u) : u \in U}
+Succ(b) == {b, Not(b)} \cup (IF b \in Atoms THEN Pairs(b, Atoms) ELSE {}) \cup (IF b \in Grow(Small) THEN Pairs(b, Grow(Small)) ELSE {})
 Values == << X, BX, SV(<<cy>>), SV(<<cx, cy>>), SV(<<cy, cX>>), IV(1), IV(2), SV(<<ca>>), SV(<<cA>>), SV(<<>>) >>
 
 (* ---- states ---- *)
@@ -114,12 +119,14 @@ DummyQ == [qs |-> <<AnyQ>>, deep |-> FALSE, roots |-> FALSE]
 DummyF == << [d |-> 0, n |-> <<>>, a |-> <<>>] >>
 
 Init ==
-    CASE Part = "truth" -> ph = "t" /\ f = DummyF /\ q = DummyQ /\ t \in Terms
+    CASE Part = "truth" -> ph = "b" /\ f = DummyF /\ q = DummyQ /\ t \in Bases
       [] Part = "struct" -> ph = "f" /\ f \in StructForests /\ q = DummyQ /\ t = NoTerm
       [] OTHER -> ph = "f" /\ f \in AttrForests /\ q = DummyQ /\ t = NoTerm
 Next ==
-    /\ ph = "f" /\ ph' = "q" /\ f' = f /\ t' = t
-    /\ q' \in (IF Part = "struct" THEN StructQueries ELSE AttrQueries)
+    \/ /\ ph = "f" /\ ph' = "q" /\ f' = f /\ t' = t
+       /\ q' \in (IF Part = "struct" THEN StructQueries ELSE AttrQueries)
+    \/ /\ ph = "b" /\ ph' = "t" /\ f' = f /\ q' = q
+       /\ t' \in Succ(t)
 Spec == Init /\ [][Next]_vars
 
 Recv == Docs(f)
@@ -133,8 +140,19 @@ InvAlgebra       == ph = "t" => \A i \in DOMAIN Values :
 InvCaseless      == ph = "t" => \A i \in DOMAIN t : \A j \in DOMAIN Values :
                         t[i].op = "atom" => CaselessLaw(t[i], Values[j])
 
+RECURSIVE SumTo(_, _)
+SumTo(g, n) == IF n = 0 THEN 0 ELSE g[n] + SumTo(g, n - 1)
+LevelCode(lv) == (CASE lv.nk = "any" -> 1 [] lv.nk = "lit" -> 2 + lv.nlit[1] [] lv.nk = "term" -> 5 + Len(lv.nterm) [] OTHER -> 11)
+                 + (CASE lv.am = "none" -> 0 [] lv.am = "any" -> 13 [] lv.am = "all" -> 17 [] lv.am = "nany" -> 19 [] OTHER -> 23)
+                 + SumTo([j \in DOMAIN lv.aq |-> IF lv.aq[j].k = "lit" THEN 3 + lv.aq[j].lit.i + Len(lv.aq[j].lit.s) ELSE 7 * Len(lv.aq[j].term)], Len(lv.aq))
+Code == SumTo([i \in DOMAIN f |-> (i + 2) * (f[i].d + 1) + (IF f[i].n = <<>> THEN 0 ELSE f[i].n[1]) + Len(f[i].a)], Len(f))
+        + SumTo([j \in DOMAIN q.qs |-> (3 * j + 1) * LevelCode(q.qs[j])], Len(q.qs))
+        + (IF q.deep THEN 29 ELSE 0) + (IF q.roots THEN 31 ELSE 0)
+Sampled == EmitEvery = 1 \/ Code % EmitEvery = Salt % EmitEvery
+
 Emit ==
-    CASE ph = "q" -> PrintT(<<"CASE", ToJson([part |-> Part, forest |-> f, qs |-> q.qs, deep |-> q.deep, roots |-> q.roots,
+    CASE ph = "q" /\ ~Sampled -> TRUE
+      [] ph = "q" -> PrintT(<<"CASE", ToJson([part |-> Part, forest |-> f, qs |-> q.qs, deep |-> q.deep, roots |-> q.roots,
                                               expect |-> Select(f, Recv, q.qs, q.deep)])>>)
       [] ph = "t" -> PrintT(<<"CASE", ToJson([part |-> Part, term |-> t, vals |-> Values,
                                               expect |-> [i \in DOMAIN Values |-> Truth(t, Values[i])]])>>)
